@@ -124,6 +124,7 @@ def alt_setup(engine, fi, lhs, rhs, variant=None):
                 kind = NONTERMINAL_KIND[sym]
                 if kind == 'op':
                     ex.assume(z3.And(L.is_Obj(v), sh.is_instance(Val.oref(v), 'Op')))
+                    ex.assume(L.cls_of(Val.oref(v)) != sh.cid('SliceOp'))
                     ex.note_class(L.simp(Val.oref(v)), 'Op')
                 elif kind == 'op_or_none':
                     ex.assume(z3.Or(L.is_None(v), z3.And(L.is_Obj(v), sh.is_instance(Val.oref(v), 'Op'))))
@@ -275,90 +276,116 @@ def slice_spec(variant, elems):
     return N('SliceOp', **fields)
 
 
+BINARY_TOKENS = ('PLUS', 'MINUS', 'TIMES', 'POWER', 'DIVIDE', 'EQ', 'NE', 'GT', 'LT', 'GTE', 'LTE', 'IN', 'AND', 'OR')
+CLOSERS = ('RPAREN', 'RBRACKET', 'RBRACE')
+
+
 def spec_tree(ex, fname, lhs, rhs, p, ctx):
-    """the tree the published language assigns to this production (None: the action has its own spec)"""
+    """the tree the published language assigns to a PRODUCTION (keyed by the production, not by the name of
+    the function that happens to implement it); None: no tree is published for it"""
     rhs = tuple(rhs)
     n = len(rhs)
-    if fname in ('p_line', 'p_statement_expr'):
+    core = tuple(x for x in rhs)
+    # a trailing comma before the closing bracket changes nothing
+    if n >= 2 and rhs[-2] == 'COMMA' and rhs[-1] in CLOSERS:
+        core = rhs[:-2] + rhs[-1:]
+    if lhs == 'line' and rhs == ('statement',):
         return p[1]
-    if fname == 'p_statement_empty':
-        return LIT(None)
-    if fname == 'p_statement_comment':
-        return N('NoOp')
-    if fname in ('p_expression_number', 'p_expression_string'):
-        return N('ValueOp', v=p[1])
-    if fname == 'p_statement_assign':
-        return N('AssignOp', name=p[1], value=p[3])
-    if fname == 'p_statement_short_op':
-        return N('ShortOp', name=p[1], op=p[2], value=p[3])
-    if fname == 'p_expression_call':
-        if 'arglist' in rhs:
-            return N('CallOp', name=p[1], args=p[3])          # trailing comma or not: the same call
-        return N('CallOp', name=p[1], args=LIST())
-    if fname == 'p_expression_method_call':
-        # r.f(a), r | f(a) and f(r, a) denote the same call; a trailing comma changes nothing
-        if 'arglist' in rhs:
-            return N('CallOp', name=p[3], args=CAT([p[1]], p[5], []))
-        return N('CallOp', name=p[3], args=LIST(p[1]))
-    if fname == 'p_expression_lambda':
-        if n == 3:
-            return N('LambdaOp', args=LIST(N('NameOp', name=p[1])), expr=p[3])
-        return N('LambdaOp', args=p[2], expr=p[5])
-    if fname == 'p_dict_item':
-        if rhs[0] == 'dict_item':
-            if n == 5:
-                return CAT([], p[1], [TUP(p[3], p[5])])
-            return None
-        return LIST(TUP(p[1], p[3]))
-    if fname == 'p_expression_binop':
-        if rhs[1] == 'NOT':
-            return N('BinOp', op=LIT('not in'), op1=p[1], op2=p[4])
-        return N('BinOp', op=p[2], op1=p[1], op2=p[3])
-    if fname == 'p_list_literal':
-        if 'arglist' in rhs:
-            return N('CallOp', name=LIT('list'), args=p[2])
-        return N('CallOp', name=LIT('list'), args=LIST())
-    if fname == 'p_dict_literal':
-        if 'dict_item' in rhs:
-            return N('DictOp', d=p[2])
-        return N('CallOp', name=LIT('dict'), args=LIST())
-    if fname == 'p_slice':
-        return LIST(*p[1:])
-    if fname == 'p_getitem':
-        if rhs[2] == 'slice':
-            return N('CallOp', name=LIT('__getitem__'), args=LIST(p[1], slice_spec(ctx['variant'], ex.slice_elems)))
-        return N('CallOp', name=LIT('__getitem__'), args=LIST(p[1], p[3]))
-    if fname == 'p_delitem':
-        return N('CallOp', name=LIT('__delitem__'), args=LIST(p[2], p[4]))
-    if fname == 'p_setitem':
-        return N('CallOp', name=LIT('__setitem__'), args=LIST(p[1], p[3], p[6]))
-    if fname == 'p_setitem_with_op':
-        return N('CallOp', name=LIT('__setitem_with_op__'), args=LIST(p[1], p[3], N('ValueOp', v=p[5]), p[6]))
-    if fname == 'p_if_expr':
-        return N('IfExprOp', cond=p[3], op1=p[1], op2=p[5])
-    if fname == 'p_expression_uminus':
-        return N('UnaryOp', op=LIT('-'), op1=p[2])
-    if fname == 'p_expression_group':
-        return p[2]
-    if fname == 'p_expression_true':
-        return N('ValueOp', v=LIT(True))
-    if fname == 'p_expression_false':
-        return N('ValueOp', v=LIT(False))
-    if fname == 'p_expression_none':
-        return N('ValueOp', v=LIT(None))
-    if fname == 'p_expression_not':
-        return N('UnaryOp', op=LIT('not'), op1=p[2])
-    if fname == 'p_expression_name':
-        return N('NameOp', name=p[1])
-    if fname == 'p_arglist':
-        if n == 3:
+    if lhs == 'statement':
+        if rhs == ('expression',):
+            return p[1]
+        if rhs == ():
+            return LIT(None)
+        if rhs == ('COMMENT',):
+            return N('NoOp')
+        if rhs == ('NAME', 'ASSIGN', 'expression'):
+            return N('AssignOp', name=p[1], value=p[3])
+        if rhs == ('NAME', 'SHORT_OP', 'expression'):
+            return N('ShortOp', name=p[1], op=p[2], value=p[3])
+        if rhs == ('DEL', 'expression', 'LBRACKET', 'expression', 'RBRACKET'):
+            return N('CallOp', name=LIT('__delitem__'), args=LIST(p[2], p[4]))
+        if rhs == ('expression', 'LBRACKET', 'expression', 'RBRACKET', 'ASSIGN', 'expression'):
+            return N('CallOp', name=LIT('__setitem__'), args=LIST(p[1], p[3], p[6]))
+        if rhs == ('expression', 'LBRACKET', 'expression', 'RBRACKET', 'SHORT_OP', 'expression'):
+            return N('CallOp', name=LIT('__setitem_with_op__'), args=LIST(p[1], p[3], N('ValueOp', v=p[5]), p[6]))
+        return None
+    if lhs == 'arglist':
+        if rhs == ('arglist', 'COMMA', 'expression'):
             return CAT([], p[1], [p[3]])
-        return LIST(p[1])
-    if fname == 'p_arglist_def':
-        if n == 3:
+        if rhs == ('expression',):
+            return LIST(p[1])
+        return None
+    if lhs == 'arglist_def':
+        if rhs == ('arglist', 'COMMA', 'NAME'):
             return CAT([], p[1], [N('NameOp', name=p[3])])
-        return LIST(N('NameOp', name=p[1]))
+        if rhs == ('NAME',):
+            return LIST(N('NameOp', name=p[1]))
+        return None
+    if lhs == 'dict_item':
+        if rhs == ('dict_item', 'COMMA', 'expression', 'COLON', 'expression'):
+            return CAT([], p[1], [TUP(p[3], p[5])])
+        if rhs == ('expression', 'COLON', 'expression'):
+            return LIST(TUP(p[1], p[3]))
+        return None
+    if lhs == 'slice':
+        return LIST(*p[1:])
+    if lhs != 'expression':
+        return None
+    if rhs in (('NUMBER',), ('STRING',)):
+        return N('ValueOp', v=p[1])
+    if rhs == ('TRUE',):
+        return N('ValueOp', v=LIT(True))
+    if rhs == ('FALSE',):
+        return N('ValueOp', v=LIT(False))
+    if rhs == ('NONE',):
+        return N('ValueOp', v=LIT(None))
+    if rhs == ('NAME',):
+        return N('NameOp', name=p[1])
+    if rhs == ('MINUS', 'expression'):
+        return N('UnaryOp', op=LIT('-'), op1=p[2])
+    if rhs == ('NOT', 'expression'):
+        return N('UnaryOp', op=LIT('not'), op1=p[2])
+    if rhs == ('LPAREN', 'expression', 'RPAREN'):
+        return p[2]
+    if rhs == ('expression', 'NOT', 'IN', 'expression'):
+        return N('BinOp', op=LIT('not in'), op1=p[1], op2=p[4])
+    if n == 3 and rhs[0] == 'expression' and rhs[2] == 'expression' and rhs[1] in BINARY_TOKENS:
+        return N('BinOp', op=p[2], op1=p[1], op2=p[3])
+    if rhs == ('expression', 'IF', 'expression', 'ELSE', 'expression'):
+        return N('IfExprOp', cond=p[3], op1=p[1], op2=p[5])
+    if rhs == ('NAME', 'LAMBDA', 'expression'):
+        return N('LambdaOp', args=LIST(N('NameOp', name=p[1])), expr=p[3])
+    if rhs == ('LPAREN', 'arglist_def', 'RPAREN', 'LAMBDA', 'expression'):
+        return N('LambdaOp', args=p[2], expr=p[5])
+    # calls: f(args), r.f(args), r | f(args), r | f  all denote CallOp(f, [r,] args)
+    if core == ('NAME', 'LPAREN', 'arglist', 'RPAREN'):
+        return N('CallOp', name=p[1], args=p[3])
+    if core == ('NAME', 'LPAREN', 'RPAREN'):
+        return N('CallOp', name=p[1], args=LIST())
+    if len(core) == 6 and core[0] == 'expression' and core[1] in ('DOT', 'PIPE') and core[2:] == ('NAME', 'LPAREN', 'arglist', 'RPAREN'):
+        return N('CallOp', name=p[3], args=CAT([p[1]], p[5], []))
+    if len(core) == 5 and core[0] == 'expression' and core[1] in ('DOT', 'PIPE') and core[2:] == ('NAME', 'LPAREN', 'RPAREN'):
+        return N('CallOp', name=p[3], args=LIST(p[1]))
+    if rhs == ('expression', 'PIPE', 'NAME'):
+        return N('CallOp', name=p[3], args=LIST(p[1]))
+    # literals
+    if core == ('LBRACKET', 'RBRACKET'):
+        return N('CallOp', name=LIT('list'), args=LIST())
+    if core == ('LBRACKET', 'arglist', 'RBRACKET'):
+        return N('CallOp', name=LIT('list'), args=p[2])
+    if core == ('LBRACE', 'RBRACE'):
+        return N('CallOp', name=LIT('dict'), args=LIST())
+    if core == ('LBRACE', 'dict_item', 'RBRACE'):
+        return N('DictOp', d=p[2])
+    # indexing
+    if rhs == ('expression', 'LBRACKET', 'slice', 'RBRACKET'):
+        return N('CallOp', name=LIT('__getitem__'), args=LIST(p[1], slice_spec(ctx['variant'], ex.slice_elems)))
+    if rhs == ('expression', 'LBRACKET', 'expression', 'RBRACKET'):
+        return N('CallOp', name=LIT('__getitem__'), args=LIST(p[1], p[3]))
     return None
+
+
+RESERVED_UNUSED = ('FOR', 'WHILE', 'ELIF', 'BREAK', 'CONTINUE', 'DEF', 'RAISE')
 
 
 class AltSpec(FnContract):
@@ -382,13 +409,21 @@ class AltSpec(FnContract):
                 for f, v in vals.items():
                     ty = sh.field_ty(cls, f)
                     if ty is not None:
-                        ex.prove('C17:%s:%s.%s-is-well-shaped' % (tag, cls, f), ['C17', 'C06', 'C07'],
+                        ex.prove('C17:%s:%s.%s-is-well-shaped' % (tag, cls, f), ['C17', 'C06', 'C07', 'C14'],
                                  sh.formula(ex, v, ty), {'watch': {'value': v}})
+                    if f == 'args' and cls == 'CallOp':
+                        nm = L.simp(vals.get('name'))
+                        for helper in ('__setitem__', '__setitem_with_op__', '__delitem__'):
+                            if nm.eq(L.simp(ex.str_lit(helper))):
+                                h = ex.heap
+                                key = h.lelt(Val.lref(v), 1)
+                                ex.prove('C03:%s:%s-is-never-built-with-a-slice-as-the-key' % (tag, helper), ['C03', 'C14'],
+                                         z3.Not(z3.And(L.is_Obj(key), L.cls_of(Val.oref(key)) == sh.cid('SliceOp'))))
                     if f == 'name':
                         ex.prove('C18:%s:%s.name-is-a-NAME-of-the-source-or-an-implicit-helper' % (tag, cls), ['C18'],
                                  z3.Or([v == s for s in name_slots] + [v == ex.str_lit(x) for x in IMPLICIT_NAMES]),
                                  {'watch': {'name': v}})
-        if fname == 'p_expression_reserved_unused':
+        if lhs == 'expression' and len(rhs) == 1 and rhs[0] in RESERVED_UNUSED:
             ex.prove('C16:%s:reserved-word-is-ParserError' % tag, ['C16'],
                      L.exc_is_sub(outcome[1], PE) if outcome[0] == 'raise' else False)
             return
@@ -396,9 +431,12 @@ class AltSpec(FnContract):
             ex.prove('C06:%s:action-does-not-fail' % tag, ['C06', 'C16'], False)
             return
         result = ex.p_slots[0]
-        if fname == 'p_code':
+        if lhs == 'code':
             self.code_spec(ex, ctx, tag, result)
             return
+        if lhs == 'expression':
+            ex.prove('C14:%s:an-expression-is-never-a-bare-slice-node' % tag, ['C14', 'C03', 'C06'],
+                     z3.Not(z3.And(L.is_Obj(result), L.cls_of(Val.oref(result)) == sh.cid('SliceOp'))))
         exp = spec_tree(ex, fname, lhs, rhs, p0, ctx)
         if exp is None:
             ex.prove('C06:%s:has-a-tree-spec' % tag, ['C06'], False)
